@@ -13,10 +13,10 @@ pub fn def() -> CheckDef {
         id: "C12",
         title: "Restart / reload transparency at quiescent points",
         case,
-        rule: "case = generated deterministic-outcome model (control flow, catches, generated acts, set/code writers, env; a third with steps/branches/acts written without an id - the engine generates one, observations map it back through the node name) x scripted client table answered by a canonical sequential client (smallest (key, occurrence) first, so that the client-visible history is the same in both runs) x run A without faults, then runs B_i that inject at quiescent point i either an engine restart on the same store (SQLite file, or in-memory collections transplanted into the new engine) or an eviction of the process from the cache - at every quiescent point of A in the thorough tier, at up to 5 seeded points (plus one pair) in the quick tier. B must issue the same client actions with the same results, produce per phase (between two client actions) the same multiset of messages up to ids/tids/timestamps, the same final task outcomes and the same terminal event and outputs. non-trivial = the fault hit a point where the process had an open interrupt and at least two client actions followed; distinct = distinct (scenario hash, fault point, fault kind)",
+        rule: "case = generated deterministic-outcome model (control flow, catches, generated acts, set/code writers, env; a third with steps/branches/acts written without an id - the engine generates one, observations map it back through the node name; a quarter with timeout rules on interrupts and clock jumps + ticks between the client's actions; a fifth with a call of a sub-workflow whose child completes, fails or is aborted) x scripted client table answered by a canonical sequential client (smallest (key, occurrence) first, so that the client-visible history is the same in both runs) x run A without faults, then runs B_i that inject at quiescent point i either an engine restart on the same store (SQLite file, or in-memory collections transplanted into the new engine) or an eviction of the process from the cache - at every quiescent point of A in the thorough tier, at up to 5 seeded points (plus one pair) in the quick tier. B must issue the same client actions with the same results, produce per phase (between two client actions) the same multiset of messages up to ids/tids/timestamps, the same final task outcomes and the same terminal event and outputs. non-trivial = the fault hit a point where the process had an open interrupt and at least two client actions followed; distinct = distinct (scenario hash, fault point, fault kind)",
         level: "fault_enumeration",
         assumptions: &["faults are injected at quiescent points only (the statement's scope)", "a killed engine runs no destructors; only the store survives", "monotone simulated clock", "no storage errors are injected"],
-        probes: &["probe.restart_sqlite", "probe.restart_mem", "probe.evict", "probe.fault_with_open_interrupt", "probe.two_faults", "probe.generated_acts", "probe.env", "probe.catch", "probe.nodes_without_id", "probe.timeout_rule_fired"],
+        probes: &["probe.restart_sqlite", "probe.restart_mem", "probe.evict", "probe.fault_with_open_interrupt", "probe.two_faults", "probe.generated_acts", "probe.env", "probe.catch", "probe.nodes_without_id", "probe.timeout_rule_fired", "probe.sub_workflow_call"],
         quick_cases: 1000,
         no_shrink: &[],
     }
@@ -101,6 +101,54 @@ fn gen_scenario(rng: &mut vsim::rng::Rng) -> Scenario {
             sc.time_ops.push(TimeOp { before_action: at, jump_us: *rng.pick(&[2_500_000i64, 6_000_000, 61_000_000]) });
         }
     }
+    // a call of a sub-workflow somewhere along the flow: parent and child both survive the reload, the child's end
+    // still returns to the calling act
+    if rng.below(5) == 0 {
+        let mut placed = false;
+        fn place(steps: &mut [MStep], rng: &mut vsim::rng::Rng, placed: &mut bool) {
+            for s in steps.iter_mut() {
+                if *placed {
+                    return;
+                }
+                if !s.acts.is_empty() && s.acts.iter().all(|a| !matches!(a.kind, ActKind::Block { .. } | ActKind::Parallel { .. } | ActKind::Sequence { .. })) && rng.below(2) == 0 {
+                    let pos = rng.below(s.acts.len() as u64 + 1) as usize;
+                    let mut o = BTreeMap::new();
+                    o.insert("x".to_string(), json!(7));
+                    s.acts.insert(pos, MAct { id: "subcall".into(), key: "subcall_key".into(), kind: ActKind::Subflow { to: "child".into(), options: o }, ..Default::default() });
+                    *placed = true;
+                    return;
+                }
+                for b in s.branches.iter_mut() {
+                    place(&mut b.steps, rng, placed);
+                }
+            }
+        }
+        place(&mut sc.models[0].steps, rng, &mut placed);
+        if placed {
+            let mut cin = BTreeMap::new();
+            cin.insert("x".to_string(), json!(0));
+            let mut cout = BTreeMap::new();
+            cout.insert("x".to_string(), None);
+            let mut cacts = vec![MAct { id: "child_a1".into(), key: "child_k1".into(), kind: ActKind::Irq, ..Default::default() }];
+            if rng.below(2) == 0 {
+                cacts.push(MAct { id: "child_a2".into(), key: "child_k2".into(), kind: ActKind::Irq, ..Default::default() });
+            }
+            sc.models.push(MWorkflow { id: "child".into(), inputs: cin, outputs: cout, steps: vec![MStep { id: "child_s1".into(), acts: cacts, ..Default::default() }], ..Default::default() });
+            // the child may also fail or be aborted
+            match rng.below(4) {
+                0 => {
+                    let mut o = serde_json::Map::new();
+                    o.insert("ecode".into(), json!("child_err"));
+                    o.insert("message".into(), json!("child failed"));
+                    sc.client.reactions.insert("child_k1".into(), vec![Reaction { action: "error".into(), options: o, repeat: 0 }]);
+                }
+                1 => {
+                    sc.client.reactions.insert("child_k1".into(), vec![Reaction { action: "abort".into(), options: serde_json::Map::new(), repeat: 0 }]);
+                }
+                _ => {}
+            }
+        }
+    }
     // some nodes without an id in the YAML: the engine generates one, which must survive the reload
     if rng.below(3) == 0 {
         let keep = opts.p_scripted > 0;
@@ -128,7 +176,8 @@ fn strip_ids(v: &Value, ids: &BTreeSet<String>) -> Value {
 }
 
 pub fn canon(rec: &RunRecord) -> Canon {
-    let ids: BTreeSet<String> = rec.trans.iter().map(|t| t.tid.clone()).chain(rec.msgs.iter().map(|m| m.tid.clone())).filter(|t| t != "$").collect();
+    // task ids and the generated pids of child processes differ from run to run
+    let ids: BTreeSet<String> = rec.trans.iter().map(|t| t.tid.clone()).chain(rec.msgs.iter().map(|m| m.tid.clone())).filter(|t| t != "$").chain(rec.msgs.iter().map(|m| m.pid.clone()).filter(|p| p != "p1")).collect();
     let mut phases: Vec<Vec<String>> = vec![vec![]];
     let mut ai = 0;
     for m in rec.msgs.iter() {
@@ -207,6 +256,9 @@ pub fn case(ctx: &mut CaseCtx) -> CaseOut {
     }
     if rec_a.msgs.iter().any(|m| m.key.starts_with("timeout")) {
         ctx.count("probe.timeout_rule_fired", 1);
+    }
+    if rec_a.msgs.iter().any(|m| m.key == "child_k1") {
+        ctx.count("probe.sub_workflow_call", 1);
     }
     let mut plans: Vec<Vec<(usize, String)>> = vec![];
     for p in &points {
